@@ -429,6 +429,13 @@ func genC12Case(t *rapid.T) *C12Case {
 			// a struct call with either / botheq groups (they build their clauses in pooled buffers too)
 			gc := genC17Struct(t)
 			gc.pickEntry(rapid.IntRange(0, 7).Draw(t, "gentry"))
+			if rapid.IntRange(0, 2).Draw(t, "groupThenMapGroup") == 0 {
+				// the struct call with groups, directly followed by a Map call whose only rule is a group that fails (one
+				// member, empty): group records of the struct call must not show in the map's clause
+				mg := &ScalarCase{T: desc.Scalar("string"), Val: desc.Str(""), Rules: []string{rapid.SampledFrom([]string{"either=5", "botheq=5", "either=1"}).Draw(t, "mapGroupRule")}, RePats: map[string]string{}, Carrier: "map"}
+				bases = append(bases, base{call: &Call{S: gc}, regen: func() (desc.V, bool) { return desc.V{}, false }, then: &Call{V: mg}})
+				break
+			}
 			bases = append(bases, base{call: &Call{H: &HelperCall{Name: "dumpjson-bad", Arg: genString(t, "harg", true)}}, regen: func() (desc.V, bool) { return desc.V{}, false }, then: &Call{S: gc}})
 		case 5, 6:
 			// one rule of the catalogue used several times with different arguments
